@@ -9,6 +9,34 @@ TOL = 1e-9
 _loaded = None
 
 
+class local_timezone(object):
+    """Run a block under another process time zone (POSIX TZ rule, no tz database needed), e.g. one with daylight saving."""
+    DST = "CET-1CEST,M3.5.0,M10.5.0/3"
+
+    def __init__(self, tz):
+        self.tz = tz
+
+    def __enter__(self):
+        import os
+        import time
+        self.old = os.environ.get("TZ")
+        if self.tz:
+            os.environ["TZ"] = self.tz
+            time.tzset()
+        return self
+
+    def __exit__(self, *exc):
+        import os
+        import time
+        if self.tz:
+            if self.old is None:
+                os.environ.pop("TZ", None)
+            else:
+                os.environ["TZ"] = self.old
+            time.tzset()
+        return False
+
+
 def load():
     """Import pDESy from REPO with the hook enabled; returns a namespace object."""
     global _loaded
